@@ -48,7 +48,10 @@ ApplyFn(f, a) ==
                          THEN (IF Len(a) = 1 THEN Num(-a[1][2]) ELSE Num(FoldNum("-", a, 2, a[1][2])))
                          ELSE ERR
     [] f = "fn:mult"  -> IF AllNum(a) /\ Len(a) >= 1 THEN Num(FoldNum("*", a, 2, a[1][2])) ELSE ERR
-    [] f = "fn:div"   -> IF AllNum(a) /\ Len(a) >= 2 THEN DivFold(a, 2, a[1][2]) ELSE ERR
+    [] f = "fn:div"   -> IF AllNum(a) /\ Len(a) >= 2 THEN DivFold(a, 2, a[1][2])
+                         \* one argument: the reciprocal 1 / a1 in integer division (functional.go: "integer division 1 / arg[0]")
+                         ELSE IF AllNum(a) /\ Len(a) = 1 THEN (IF a[1][2] = 0 THEN ERR ELSE Num(TDiv(1, a[1][2])))
+                         ELSE ERR
     [] f = "fn:mod"   -> IF AllNum(a) /\ Len(a) = 2 /\ a[2][2] # 0 THEN Num(TMod(a[1][2], a[2][2])) ELSE ERR
     [] f = "fn:pair"  -> IF Len(a) = 2 THEN Pair(a[1], a[2]) ELSE ERR
     [] f = "fn:tuple" -> IF Len(a) >= 1 THEN MkTuple(a, 1) ELSE ERR
